@@ -4,6 +4,12 @@
      SOUTSIDE <n> <field>* <node>   -> U <field>*   scalar members used in the tree and not in the list
      CACHED <fname-enc> <n> <targ-enc>* <node> ...  see below
      TABLE                          -> C <cloned child fields> / S <subst child fields>
+     RESOLVE <k> {<key-enc> <val-enc>}* <name-enc>  -> R <enc>   TypeContext::resolve_complex_type (type_map[key] = val in order)
+     TARGS <name-enc>               -> A <base-enc> <n> <arg-enc>* | A -    the type arguments find_impl_for_struct cuts out
+     CTX <fuel> <nblocks> {<base> <np> <param>* <nm> {<mname> <nmp> {<pname> <ptype>}* <na> <act>*}*}* <ncalls> {<rty> <m> <n>}*
+         act = O <ty> | D <v> <ty> | C <v> <m> | G <fn> | R <k> | F      (all names encoded)
+                                    -> one group per call from main, separated by " ; ":
+                                       <N|R|E> <stack depth after> <observed-name-enc>*
    Trees: ( kind nscalars {fname =enc}* nkids {fname node}* ) *)
 open C11_model
 
@@ -62,6 +68,31 @@ let rec dump b (Node (k, sc, kids)) =
   Buffer.add_string b " )"
 
 let show n = let b = Buffer.create 256 in dump b n; Buffer.contents b
+let rec nat_of_int i = if i <= 0 then O else S (nat_of_int (i - 1))
+let estr () = explode (dec (next ()))
+let load_act () =
+  match next () with
+  | "O" -> AObs (estr ())
+  | "D" -> let v = estr () in let ty = estr () in ADecl (v, ty)
+  | "C" -> let v = estr () in let m = estr () in ACall (v, m)
+  | "G" -> AFn (estr ())
+  | "R" -> ARetIf (nat_of_int (num ()))
+  | "F" -> AFail
+  | t -> raise (Protocol ("unknown act " ^ t))
+let load_method () =
+  let name = estr () in
+  let np = num () in
+  let ps = List.init np (fun _ -> let a = estr () in let b = estr () in (a, b)) in
+  let na = num () in
+  let body = List.init na (fun _ -> load_act ()) in
+  (name, { m_params = ps; m_body = body })
+let load_block () =
+  let base = estr () in
+  let np = num () in
+  let ps = List.init np (fun _ -> estr ()) in
+  let nm = num () in
+  let ms = List.init nm (fun _ -> load_method ()) in
+  { b_base = base; b_params = ps; b_methods = ms }
 let strs k = List.init k (fun _ -> explode (dec (next ())))
 
 let () =
@@ -97,6 +128,27 @@ let () =
                 let (c', r) = call_cached !c f t a in c := c';
                 match r with Ok t -> "T " ^ show t | Err e -> "E " ^ enc (implode e)) in
               String.concat " ; " outs
+          | "RESOLVE" ->
+              let k = num () in
+              let m = List.fold_left (fun m p -> p :: m) []
+                        (List.init k (fun _ -> let a = estr () in let b = estr () in (a, b))) in
+              "R " ^ enc (implode (resolve_complex_type m (estr ())))
+          | "TARGS" ->
+              (match impl_type_args (estr ()) with
+               | None -> "A -"
+               | Some (b, a) -> "A " ^ enc (implode b) ^ " " ^ string_of_int (List.length a) ^
+                                String.concat "" (List.map (fun x -> " " ^ enc (implode x)) a))
+          | "CTX" ->
+              let fuel = nat_of_int (num ()) in
+              let nb = num () in
+              let prog = List.init nb (fun _ -> load_block ()) in
+              let nc = num () in
+              let calls = List.init nc (fun _ -> let r = estr () in let m = estr () in let n = nat_of_int (num ()) in ((r, m), n)) in
+              let rs = run_calls fuel prog [] calls in
+              String.concat " ; " (List.map (fun r ->
+                (match r.r_flag with FNorm -> "N" | FRet -> "R" | FErr -> "E") ^ " " ^
+                string_of_int (List.length r.r_stack) ^
+                String.concat "" (List.map (fun x -> " " ^ enc (implode x)) r.r_out)) rs)
           | "TABLE" -> "C " ^ String.concat " " (List.map implode cloned_child_fields) ^ " / S " ^
                        String.concat " " (List.map implode subst_child_fields)
           | c -> "X " ^ enc ("unknown command " ^ c)
